@@ -369,17 +369,29 @@ func genPrio(engine, prop string, r *simrt.SplitMix) *PrioSc {
 		prios = append([]uint(nil), prioSets[r.Intn(len(prioSets))]...)
 
 		randomSet := r.Intn(3) == 0
+		manyInputs := false
 
 		if randomSet {
 			// a random set of close values: with Rate and a small H the full set may get a
 			// handler each while some subset does not (accepted by the constructor, "fatal"
 			// by the utils' definition)
 			n := between(r, 2, 5)
+			span := 12
+
+			// thorough tier only (the guard comes first, so the quick tier draws exactly what it
+			// drew before): now and then more inputs than a machine word has bits, or than a
+			// small fixed table has slots - per-input state kept in bitmaps or fixed arrays
+			manyInputs = scale > 1 && prop == "C02" && !v1 && r.Intn(12) == 0
+			if manyInputs {
+				n = pick(r, 33, 65, 66, 70, 129)
+				span = 4 * n
+			}
+
 			seen := map[uint]bool{}
 			prios = prios[:0]
 
 			for len(prios) < n {
-				p := uint(between(r, 1, 12))
+				p := uint(between(r, 1, span))
 				if !seen[p] {
 					seen[p] = true
 					prios = append(prios, p)
@@ -387,6 +399,10 @@ func genPrio(engine, prop string, r *simrt.SplitMix) *PrioSc {
 			}
 		}
 		sc.Divider = pick(r, "fair", "rate", "rate", "custom")
+		if manyInputs {
+			sc.Divider = "fair"
+		}
+
 		n := len(prios)
 		sc.H = pick(r, n, n, n+1, n+2, 2*n, 2*n+1, 6, 7, 11, between(r, n, n+10*scale))
 
